@@ -250,6 +250,50 @@ def run_indexrace(ck, prop, tier):
     ck.extra['indexrace_behaviours'] = tot['behaviours']
     log('  indexrace: %(behaviours)d behaviours, %(steps)d steps, %(violations)d violations, drift %(drift)d' % tot)
 
+# readers of the document store against the rebuilds of its view (C07): spec/ReadView.tla
+
+def rv_cfg(name, snapshot, mode, maxver=4, nreads=2, inv=True):
+    return (name, """SPECIFICATION Spec
+CONSTANTS Keys = {"a", "b", "c"}  MaxVer = %d  NReads = %d  SnapshotRead = %s  Mode = "%s"
+%s
+CHECK_DEADLOCK FALSE
+""" % (maxver, nreads, 'TRUE' if snapshot else 'FALSE', mode, 'INVARIANTS OneState' if inv else ''))
+
+
+def run_tornread(ck, prop, tier):
+    """Get and Query while writes rebuild the view: the answer is the view of one moment of the call."""
+    thorough = tier == 'thorough'
+    bs = []
+    for mode in ('get', 'query'):
+        r = vlib.tlc_check('ReadView.tla', rv_cfg('ReadView.%s.cfg' % mode, True, mode), '%s-rv-%s' % (prop, mode), timeout=600)
+        ck.require_model_ok(r, 'ReadView (%s): the call answers from the map published at one moment' % mode)
+        m = vlib.tlc_check('ReadView.tla', rv_cfg('ReadView.%s.mutant.cfg' % mode, False, mode), '%s-rv-mutant-%s' % (prop, mode), timeout=600)
+        ck.add_tlc(m, 'ReadView (%s) with the keys and the values read in separate steps (mutant specification)' % mode)
+        if m.get('violated') == 'OneState' and m.get('trace'):
+            bs.append({'id': 'torn-read-counterexample-' + mode, 'steps': m['trace']})
+        else:
+            ck.inconclusive.append('mutant specification (keys and values read separately, %s) not refuted by TLC: vacuity guard failed' % mode)
+    sims, _ = vlib.tlc_simulate('ReadView.tla', rv_cfg('ReadView.sim.cfg', True, 'get', maxver=10, nreads=6, inv=False), prop + '-rv-sim',
+                                24 if thorough else 6, 30, SEED * 23 + 5)
+    bs += sims
+    for b in bs:
+        acts = [s['action'] for s in b['steps']]
+        # non-trivial: a read begins and at least two views are published
+        if 'ReadBegin' in acts and sum(1 for a in acts if a in ('PutAll', 'PutOne', 'Del')) >= 2:
+            ck.distinct.add(vlib.beh_signature(b))
+    inp = {'property': prop, 'seed': SEED, 'keys': ['a', 'b', 'c'], 'behaviours': bs, 'repeat': 12 if thorough else 6}
+    res = vlib.run_vh('tornread', inp, tag=prop + '-tornread', timeout=900)
+
+    def payload(v, inp=inp):
+        b = [x for x in bs if x['id'] == v['behaviour']]
+        return {'command': 'tornread', 'input': dict(inp, behaviours=b), 'violation': v}
+    ck.add_harness(res, payload, 'readers against rebuilds of the view')
+    if not res.get('inconclusive'):
+        ck.traces_validated += res.get('behaviours', 0)
+    ck.extra['tornread_reads'] = res.get('stats', {}).get('reads', 0)
+    log('  tornread: %d behaviours, %d writer steps, %d reads, %d violations' % (res.get('behaviours', 0), res.get('steps', 0), ck.extra['tornread_reads'], len(res.get('violations', []))))
+
+
 def c17(prop, tier):
     ck = Check(prop, tier)
     thorough = tier == 'thorough'
